@@ -78,37 +78,6 @@ pub fn sconcat(a: String, b: String) -> (r: String)
     ensures r@ == a@ + b@
 { unimplemented!() }
 
-// `x.to_string()` for std types used by the repo
-pub trait ToStr {
-    spec fn tview(&self) -> Seq<char>;
-    fn to_string(&self) -> (r: String) ensures r@ == self.tview();
-}
-impl ToStr for u64 {
-    open spec fn tview(&self) -> Seq<char> { dec(*self as nat) }
-    #[verifier::external_body]
-    fn to_string(&self) -> (r: String) { unimplemented!() }
-}
-impl ToStr for u128 {
-    open spec fn tview(&self) -> Seq<char> { dec(*self as nat) }
-    #[verifier::external_body]
-    fn to_string(&self) -> (r: String) { unimplemented!() }
-}
-impl ToStr for usize {
-    open spec fn tview(&self) -> Seq<char> { dec(*self as nat) }
-    #[verifier::external_body]
-    fn to_string(&self) -> (r: String) { unimplemented!() }
-}
-impl ToStr for str {
-    open spec fn tview(&self) -> Seq<char> { self@ }
-    #[verifier::external_body]
-    fn to_string(&self) -> (r: String) { unimplemented!() }
-}
-impl ToStr for String {
-    open spec fn tview(&self) -> Seq<char> { self@ }
-    #[verifier::external_body]
-    fn to_string(&self) -> (r: String) { unimplemented!() }
-}
-
 // ---------------------------------------------------------------- std functions without vstd specs
 pub assume_specification[ String::len ](s: &String) -> (r: usize)
     ensures r == str_byte_len(s@);
@@ -128,7 +97,35 @@ pub broadcast axiom fn axiom_str_byte_len(s: Seq<char>)
 pub broadcast axiom fn axiom_str_byte_len_concat(a: Seq<char>, b: Seq<char>)
     ensures #[trigger] str_byte_len(a + b) == str_byte_len(a) + str_byte_len(b);
 
+/// a String with a given view (total; `str_of(x@) == x` follows from extensionality)
+pub uninterp spec fn str_of(s: Seq<char>) -> String;
+pub broadcast axiom fn axiom_str_of(s: Seq<char>)
+    ensures #[trigger] str_of(s)@ == s;
+
+/// UTF-8 bytes of a string
+pub uninterp spec fn str_bytes(s: Seq<char>) -> Seq<u8>;
+pub assume_specification[ String::as_bytes ](s: &String) -> (r: &[u8])
+    ensures r@ == str_bytes(s@);
+pub assume_specification<T: Clone>[ <[T]>::to_vec ](s: &[T]) -> (r: Vec<T>)
+    ensures r@ == s@;
+
+/// `[a, b].concat()` for vectors
+#[verifier::external_trait_specification]
+pub trait ExConcat<Item: ?Sized> {
+    type ExternalTraitSpecificationFor: std::slice::Concat<Item>;
+    type Output;
+}
+pub uninterp spec fn concat_spec<T, O>(s: Seq<T>, r: O) -> bool;
+pub assume_specification<T, Item: ?Sized>[ <[T]>::concat ](s: &[T]) -> (r: <[T] as std::slice::Concat<Item>>::Output)
+    where [T]: std::slice::Concat<Item>
+    ensures concat_spec(s@, r);
+pub broadcast axiom fn axiom_concat2<X>(s: Seq<Vec<X>>, r: Vec<X>)
+    requires #[trigger] concat_spec(s, r), s.len() == 2,
+    ensures r@ == s[0]@ + s[1]@;
+
 pub broadcast group group_std_ext {
+    axiom_str_of,
+    axiom_concat2,
     axiom_string_ext,
     axiom_dec_inj,
     axiom_str_len,
